@@ -110,7 +110,17 @@ def run(facts, rep, ctx):
                     if ext and any(x == lay[0]["val"] for e in ext for x in walk(e["args"][1])):
                         elementwise_added = True
                 elif not ext or not any(x == lay[0]["val"] for e in ext for x in walk(e["args"][1])):
-                    bad1 = "the layer's result is not added to the accumulator"
+                    # ... unless this is the trip on which the accumulator is still empty and simply takes the
+                    # layer's vector over (`if acc.is_empty() { acc = entries } else { acc.extend(entries) }`)
+                    adopted = False
+                    for l_, v_ in (p.env or {}).items():
+                        if isinstance(v_, tuple) and any(x == lay[0]["val"] for x in walk(v_)):
+                            for (bb_, term_, vals_, neg_, dty_) in p.conds:
+                                if term_[0] == "call" and term_[1].rsplit("::", 1)[-1] == "is_empty" and ((vals_ == (0,)) == neg_) and any(
+                                        x[0] == "var" and x[1] == l_ for x in walk(term_)):
+                                    adopted = True
+                    if not adopted:
+                        bad1 = "the layer's result is not added to the accumulator"
                 else:
                     acc = strip_refs(ext[0]["args"][0])
                     accty = None
